@@ -57,7 +57,9 @@ def rule_as_poll(ctx, cfg, F):
         n += 1
         tr = Tracer(f)
         ctx_param = next((i for i in range(1, f.argc + 1) if "Context" in f.local_ty(i)), None)
-        inner = [b for b, t in f.calls() if strip_generics(t.get("callee") or "").endswith("Stream::poll_next") and "UnboundedReceiver" in (t.get("resolved") or "") + " ".join(t.get("generics") or [])]
+        # (`StreamExt::poll_next_unpin(&mut recv, cx)` is `Pin::new(&mut recv).poll_next(cx)`, by its definition in futures)
+        inner = [b for b, t in f.calls() if strip_generics(t.get("callee") or "").endswith(("Stream::poll_next", "StreamExt::poll_next_unpin")) and
+                 "UnboundedReceiver" in (t.get("resolved") or "") + " ".join(t.get("generics") or [])]
         good = [b for b in inner if ctx_param is not None and any(r.kind == "param" and r.id == ctx_param for r in tr.roots_of_operand(f.term(b)["args"][1]))]
         if not inner:
             R.violate("%s:no-inner-poll" % strip_generics(f.path), "poll_next does not poll the forwarding channel", f.path, f.loc(0), config=cfg)
@@ -114,7 +116,8 @@ def rule_as_loop(ctx, cfg, F):
         Rd.violate("anchor-missing:routing-thread", "async routing closure not found", config=cfg)
         return
     Rd.count("routing_fns[%s]" % cfg)
-    tr = Tracer(f)
+    # the events of one select are walked through `drain(..)` (in the general table) or through `mem::take(&mut selections)`: either way what is iterated is the select result
+    tr = Tracer(f, extra_transparent={"std::mem::take": (0, ())})
     sel = [b for b, t in f.calls() if strip_generics(callee_name(t)) == "ipc::IpcReceiverSet::select"]
     nexts = [b for b, t in f.calls() if strip_generics(t.get("callee") or "") == "std::iter::Iterator::next" and EVENT_ADT.split("::")[-1] in f.local_ty(t["dest"]["l"])]
     trynext = [b for b, t in f.calls() if strip_generics(callee_name(t)) == TRYNEXT]
